@@ -98,6 +98,25 @@ func (c Case) effective() Case {
 }
 
 func (c Case) template(cx *attrCtx) string {
+	switch c.Mode {
+	case "helper":
+		// the second half of the static prefix comes from a text-only helper that an earlier element of the same
+		// kind has already called after another prefix
+		p := string(c.Prefix)
+		k := len(p) / 2
+		for k < len(p) && p[k]&0xC0 == 0x80 {
+			k++
+		}
+		return `{{define "hp"}}` + p[k:] + `{{end}}` + cx.Pre + c.Quote + "/zz/" + `{{template "hp"}}` + c.Quote + cx.Post +
+			cx.Pre + c.Quote + p[:k] + `{{template "hp"}}` + "{{.V" + c.Pipe + "}}" + string(c.Suffix) + c.Quote + cx.Post
+	case "rec":
+		// the action sits in a helper that calls itself and also holds the rest of the attribute
+		return `{{define "hr"}}{{.V` + c.Pipe + `}}{{if .N}}{{template "hr" .N}}{{end}}` + string(c.Suffix) + c.Quote + cx.Post + `{{end}}` +
+			cx.Pre + c.Quote + string(c.Prefix) + `{{template "hr" .}}`
+	case "recbal":
+		return `{{define "hr"}}{{.V` + c.Pipe + `}}{{if .N}}{{template "hr" .N}}{{end}}{{end}}` +
+			cx.Pre + c.Quote + string(c.Prefix) + `{{template "hr" .}}` + string(c.Suffix) + c.Quote + cx.Post
+	}
 	return cx.Pre + c.Quote + c.prefixText() + "{{.V" + c.Pipe + "}}" + string(c.Suffix) + c.Quote + cx.Post
 }
 
@@ -117,6 +136,9 @@ func hasWSorCtl(s string) bool {
 			return true
 		}
 	}
+	// (white space and control characters outside ASCII - NEL, NBSP, LINE SEPARATOR ... - are generated as prefix
+	// pieces but not demanded to be refused: URL parsers strip only ASCII white space and C0 controls, which is what
+	// the rule is about; see Appendix A)
 	return false
 }
 
@@ -322,6 +344,19 @@ func check0(c Case) evid.Outcome {
 		return v
 	}
 	o.Labels = append(o.Labels, "accepted")
+	if cond.Mode == "helper" {
+		// the first element is static text and comes out as written: judge the second one
+		p := string(cond.Prefix)
+		k := len(p) / 2
+		for k < len(p) && p[k]&0xC0 == 0x80 {
+			k++
+		}
+		first := cx.Pre + c.Quote + "/zz/" + p[k:] + c.Quote + cx.Post
+		if !strings.HasPrefix(out, first) {
+			return evid.Viol("template %q: the static first element is not emitted as written: output %q", text, out)
+		}
+		out = out[len(first):]
+	}
 	// locate the value
 	r := htmltok.Tokenize([]byte(out), htmltok.Options{})
 	var av *htmltok.Attr
@@ -448,7 +483,7 @@ var prefixPieces = []string{"https:", "http:", "HTTPS:", "https://h/", "http://h
 
 var dataDict = []string{"a", "a b", "x/y", "../z", "..", ".", "%2e%2e", "%2E.", "?a=b", "&b=2#f", "#frag", "=", "&", "&amp;", "javascript:alert(1)", "script:alert(1)", ":", "//evil/", "/\\evil", "\\", "@evil", "%", "%2", "%zz", "%41", "%2f", "%3c", "é", "\xff", "\x00", "\n", "\t", "<b>", "\"", "'", "`", "{", "|", "^", "+", "a+b", "~", "[x]", "*", "!", "$", ",", ";"}
 
-var refPieces = strs.AllCharRefSpellings("%?#/:.\\@& \t\n\r\x00\x01\x7f;=2a")
+var refPieces = append(strs.AllCharRefSpellings("%?#/:.\\@& \t\n\r\x00\x01\x7f;=2a"), "&nbsp;", "&#x85;", "&#133;", "&#xA0;", "&#x2028;", "&#8233;", "&ensp;", "&#x3000;", "&#x9f;", string(rune(0x85)), string(rune(0xa0)), string(rune(0x2028)), string(rune(0x3000)), string(rune(0x9f)))
 
 func gen(t *rapid.T) Case {
 	c := Case{Ctx: ctxs[rapid.IntRange(0, len(ctxs)-1).Draw(t, "ctx")].ID, Quote: rapid.SampledFrom([]string{`"`, `"`, `'`}).Draw(t, "quote")}
@@ -471,7 +506,7 @@ func gen(t *rapid.T) Case {
 		c.Prefix = evid.BStr(strings.ReplaceAll(string(c.Prefix), "'", ""))
 	}
 	if rapid.IntRange(0, 3).Draw(t, "condprefix") == 0 {
-		c.Mode = rapid.SampledFrom([]string{"same", "hidden", "nested", "nestedhidden"}).Draw(t, "mode")
+		c.Mode = rapid.SampledFrom([]string{"same", "hidden", "nested", "nestedhidden", "helper", "rec", "recbal"}).Draw(t, "mode")
 		c.C, c.D = rapid.Bool().Draw(t, "c"), rapid.Bool().Draw(t, "d")
 		c.Prefix2 = evid.BStr(rapid.SampledFrom([]string{"/p?x=", "/p/", "javascript:", "java", "/q#", "https://h/", "//evil.test/", "?", "x"}).Draw(t, "prefix2"))
 	}
